@@ -79,10 +79,11 @@ func blockPos(b *ssa.BasicBlock) int {
 
 // loopWrites computes what a loop body may modify: phis, registers, heap class prefixes, iterators.
 type loopWrites struct {
-	regs  map[*ssa.Alloc]bool
-	pref  []string
-	all   bool
-	iters map[*ssa.Range]bool
+	exceptSets [][]string // callees that modify everything but a preserved set
+	regs       map[*ssa.Alloc]bool
+	pref       []string
+	all        bool
+	iters      map[*ssa.Range]bool
 }
 
 func (x *Exec) writesOf(fn *ssa.Function, blocks map[int]bool, depth int, w *loopWrites) {
@@ -186,6 +187,10 @@ func (x *Exec) contractWrites(c *Contract, w *loopWrites) {
 	for _, it := range c.Modifies {
 		if len(it) > 6 && it[:6] == "class " {
 			w.pref = append(w.pref, it[6:])
+			continue
+		}
+		if len(it) > 7 && it[:7] == "allbut " {
+			w.exceptSets = append(w.exceptSets, x.frameSet(trim(it[7:]), c))
 			continue
 		}
 		if len(it) > 6 && it[:6] == "owned " {
@@ -294,6 +299,10 @@ func (x *Exec) loopEntry(fr *Frame, st *State, lp *loop, prev *ssa.BasicBlock) {
 	x.writesOf(fr.fn, lp.blocks, 0, w)
 	for _, phi := range phis {
 		fr.vals[phi] = x.freshVal(st, "phi."+phi.Comment, phi.Type())
+		if phi.Comment == "rangeindex" {
+			// the index of a range loop starts at -1 and only ever grows by one per iteration
+			st.assume(app(sBool, "<=", intLit(-1), fr.vals[phi].(Sc).T))
+		}
 	}
 	for a := range w.regs {
 		if _, ok := fr.regs[a]; ok {
@@ -322,6 +331,9 @@ func (x *Exec) loopEntry(fr *Frame, st *State, lp *loop, prev *ssa.BasicBlock) {
 	st.alloc = na
 	st.dirty = nil
 	st.invSeen = map[string]bool{}
+	if len(x.c.Propagates) > 0 {
+		st.pending = x.fresh("pending", sIface)
+	}
 	// re-validate values that are still in scope against the new allocation bound: they were valid before, and alloc only grows
 	ev2 := &specEnv{x: x, st: st, old: x.entry, vars: x.params, fr: fr, at: b, c: x.c, iter: iter}
 	if ls != nil {
@@ -396,6 +408,7 @@ func (x *Exec) loopBackEdge(fr *Frame, st *State, lp *loop, prev *ssa.BasicBlock
 		return
 	}
 	x.checkTypeInvs(fr, st, "at loop back edge")
+	x.checkPropagation(st, nil, true)
 	ev := &specEnv{x: x, st: st, old: x.entry, vars: x.params, fr: fr2, at: b, c: x.c, iter: x.loopIter(fr.fn, lp)}
 	for _, inv := range ls.Invariants {
 		t := ev.evalBool(inv.Text)
